@@ -84,6 +84,7 @@ macro_rules! wb_harnesses {
         include!("/verif/kani/wb/src/h/c03.rs");
         include!("/verif/kani/wb/src/h/c08.rs");
         include!("/verif/kani/wb/src/h/c07.rs");
+        include!("/verif/kani/wb/src/h/c16.rs");
         include!("/verif/kani/wb/src/h/probe.rs");
     };
 }
